@@ -333,7 +333,7 @@ Definition abs_rename_into (p : string) (h : handle) (n : string) (replace : boo
 (* transition.go: crossDeviceRenameTemporaryNamePrefix *)
 Definition cross_device_pattern : string := ".mutagen-temporary-cross-device-rename".
 
-(* ------------------------------------------------------------- parameters *)
+(* ------------------------------------------------- the root and the staging directory *)
 Section Ops.
 (* the synchronization root (absolute, cleaned) and the staging directory *)
 Variable root : string.
